@@ -540,7 +540,10 @@ fn simplify_logic_nary(exps: &[Exp], is_and: bool) -> Exp {
     }
     match result.len() {
         0 => Exp::Number(logic_number(is_and)),
-        1 => result.into_iter().next().unwrap(),
+        // a lone operand stands for itself only when it is a truth value by
+        // construction; anything else keeps the operator, whose value is the
+        // operand's truth value and whose operand must be checked to be binary
+        1 if is_truth_valued(&result[0]) => result.into_iter().next().unwrap(),
         _ => {
             if is_and {
                 Exp::And(result)
@@ -548,6 +551,22 @@ fn simplify_logic_nary(exps: &[Exp], is_and: bool) -> Exp {
                 Exp::Or(result)
             }
         }
+    }
+}
+
+/// True for expressions that can only evaluate to 0 or 1.
+fn is_truth_valued(exp: &Exp) -> bool {
+    match exp {
+        Exp::Number(value) => *value == 0.0 || *value == 1.0,
+        // a variable used as a logic operand is a Boolean one
+        Exp::Variable(_)
+        | Exp::And(_)
+        | Exp::Or(_)
+        | Exp::Not(_)
+        | Exp::Xor(_, _)
+        | Exp::Implies(_, _)
+        | Exp::Iff(_, _) => true,
+        _ => false,
     }
 }
 
